@@ -29,9 +29,9 @@ func init() {
 				Blocks:   16,
 				Procs:    16,
 				Rule: "case = one input byte string. Exhaustive: every string of length <= 7 (<= 9 thorough) over 7 bytes: one representative per tokenizer class (blank, newline, backslash, single quote, double quote) and two 'other' bytes; plus every single byte 0..255 in five contexts (classification of all byte values), inputs of 4090..65537 bytes whose tokens and quoted spans cross buffer boundaries, and random inputs up to 200 bytes over a wider alphabet (tab, CR, VT, FF, NBSP, $, `, #, non-ASCII). " +
-					"Per input: Split's fields and completeness flag vs the reference; Scanner over a one-byte-at-a-time reader and over fixed and random fragmentations, including readers that return the last bytes together with io.EOF and readers that sometimes return (0, nil) (Next/Text, Complete after the last token, Next stays false and Err stays io.EOF afterwards); Each with early stop; Scanner.Split; Rest called after the k-th token for every k must yield exactly input[offset_k:] and Next must then stay false; a reader that fails with a non-EOF error must surface through Err. Complete inputs without other metacharacters and without unquoted newlines are also split by dash and 'bash +B' (length <= 6 exhaustive). Reset reuse and the pooled Split run concurrently under -race. " +
+					"Per input: Split's fields and completeness flag vs the reference; Scanner over a one-byte-at-a-time reader and over fixed and random fragmentations, including readers that return the last bytes together with io.EOF and readers that sometimes return (0, nil) (Next/Text, Complete after the last token, Next stays false and Err stays io.EOF afterwards); Each with early stop; Scanner.Split; Rest called after the k-th token for every k must yield exactly input[offset_k:] (also when Rest is asked for twice, a few bytes read through the first reader and the remainder through the second) and Next must then stay false; every rune U+0080..U+FFFF (and a stride of the other planes) at the start of the input and in every quoting context, plus byte-order marks, '#!', CR LF and escape sequences; a reader that fails with a non-EOF error must surface through Err. Complete inputs without other metacharacters and without unquoted newlines are also split by dash and 'bash +B' (length <= 6 exhaustive). Reset reuse and the pooled Split run concurrently under -race. " +
 					"distinct = the input (enumerated); non-trivial = it contains a quote or backslash",
-				Required:     []string{"inputs", "state_class_pairs_covered_of_42", "scanner_fragmentations", "rest_calls", "shell_inputs_dash", "shell_inputs_bash", "incomplete_inputs", "all_byte_values", "concurrent_splits", "long_inputs", "rest_after_reset"},
+				Required:     []string{"inputs", "state_class_pairs_covered_of_42", "scanner_fragmentations", "rest_calls", "shell_inputs_dash", "shell_inputs_bash", "incomplete_inputs", "all_byte_values", "concurrent_splits", "long_inputs", "rest_after_reset", "rest_asked_twice", "rune_sweep_inputs"},
 				Exhaustive:   true,
 				Assumptions:  []string{"reference tokenizer written from XCU 2.2 with the package's documented deviation: inside double quotes a backslash escapes only the double quote, backslash and newline; $ and ` are ordinary bytes", "dash and bash (+B, LC_ALL=C) as installed"},
 				CoverPkgs:    []string{"github.com/creachadair/mds/shell"},
@@ -323,7 +323,19 @@ func (m *c16mon) check(in string, r *rand.Rand, deep bool) bool {
 			if k > 0 {
 				off = want[k-1].End
 			}
-			rest, err := io.ReadAll(sc.Rest())
+			var rest []byte
+			var err error
+			if k%4 == 1 {
+				// Rest asked for twice: a few bytes are read through the first
+				// reader, the remainder through the second
+				first := make([]byte, k%7)
+				n, _ := io.ReadFull(sc.Rest(), first)
+				more, e := io.ReadAll(sc.Rest())
+				rest, err = append(first[:n:n], more...), e
+				c.Add("rest_asked_twice", 1)
+			} else {
+				rest, err = io.ReadAll(sc.Rest())
+			}
 			c.Add("rest_calls", 1)
 			if err != nil || string(rest) != in[off:] {
 				c.Fail(data, "Rest() after %d tokens returned %q (err %v), want the unconsumed input %q", k, rest, err, in[off:])
@@ -359,6 +371,10 @@ func (m *c16mon) check(in string, r *rand.Rand, deep bool) bool {
 }
 
 var errStop = errors.New("stop")
+
+// byte sequences that text tools treat specially (byte-order marks,
+// interpreter line, CR LF, escape sequences, option-like words)
+var c15magicTok = []string{"\xef\xbb\xbf", "\xef\xbb", "\xff\xfe", "\xfe\xff", "#!", "#!/bin/sh", "\r\n", "\n\r", "\x1b[0m", "--", "-", "-n", "\\\r\n", "\x7f", "\x01", "\x00", "\xc0\x80", "\xed\xa0\x80", "\xe2\x80\xa8", "\xc2\x85", "\xc2\xa0"}
 
 // shellEligible: complete, no other metacharacters (by construction of the
 // alphabet) and no unquoted newline according to the reference.
@@ -511,6 +527,37 @@ func runC16(c *fw.Ctx) {
 		m.flushShell(rig)
 	}
 	idx++
+	// every rune of the Basic Multilingual Plane (and a stride of the other
+	// planes) in every quoting context at once, first at the very start of the
+	// input: a rune-specific rule anywhere changes the token list.
+	if !light && c.Begin(idx+590000+c.Block) {
+		var n int64
+		for cp := 0x80 + c.Block; cp <= 0x10FFFF; cp += c.NBlocks {
+			if cp >= 0xD800 && cp <= 0xDFFF {
+				continue
+			}
+			if cp > 0xFFFF && (cp/c.NBlocks)%97 != 0 {
+				continue
+			}
+			u := string(rune(cp))
+			in := u + "c x\\" + u + " '" + u + "' \"" + u + "\" \"\\" + u + "\" a" + u + "b " + u
+			m.check(in, nil, cp%64 == 0)
+			n++
+			if c.Stopped() {
+				return
+			}
+		}
+		for _, u := range c15magicTok {
+			for _, in := range []string{u, u + "a b", "a " + u + " b", "'" + u + "' x", "\"" + u + "\" x"} {
+				m.check(in, nil, true)
+				n++
+			}
+		}
+		c.Add("rune_sweep_inputs", n)
+		c.Add("inputs", n)
+		c.Evals(n)
+		c.SeenEnum(n)
+	}
 	// long inputs: tokens and quoted spans that cross buffer boundaries (4096, 8192, 65536)
 	if c.Block < 8 && c.Begin(idx+600000+c.Block) {
 		lens := []int{4090, 4094, 4095, 4096, 4097, 4100, 5000, 8191, 8192, 8193, 20000, 65537}
